@@ -258,6 +258,26 @@ func richTour(u *universe, w *hWorld) []func() *worldOp {
 			)
 		}
 	}
+	// long fields (length prefixes of two bytes), many URIs, many entries in one multi-transfer
+	long := func(b byte, n int) []byte { return bytes.Repeat([]byte{b}, n) }
+	manyURIs := [][]byte{}
+	for i := 0; i < 12; i++ {
+		manyURIs = append(manyURIs, long(byte('a'+i), 1+i*23))
+	}
+	l = append(l,
+		tx(u.U[0], u.U[0], "ESDTNFTCreate", append([][]byte{u.NFTs[1], be(40), long('n', 300), be(10000), long('h', 200), long('t', 700)}, manyURIs...)...), // NFTs[1] nonce 5
+		tx(u.U[0], u.U[0], "ESDTNFTTransfer", u.NFTs[1], be(5), be(3), u.U[1]),
+		tx(u.U[0], u.U[0], "ESDTNFTTransfer", u.NFTs[1], be(5), be(4), u.U[2]),
+		tx(u.U[0], u.U[0], "ESDTNFTAddURI", append([][]byte{u.NFTs[1], be(5)}, manyURIs[3:9]...)...),
+		tx(u.U[0], u.U[0], "ESDTNFTUpdateAttributes", u.NFTs[1], be(5), long('A', 1000)),
+		tx(u.U[0], u.U[0], "MultiESDTNFTTransfer", tkMulti(u.U[3],
+			u.Fung[0], nil, be(1), u.NFTs[1], be(5), be(1), u.Fung[1], nil, be(2), u.NFTs[1], be(1), be(1), u.Fung[2], nil, be(3), u.NFTs[1], be(2), be(1),
+			u.Fung[0], nil, be(4), u.NFTs[1], be(5), be(2), u.NFTs[0], be(1), be(1), u.Fung[1], nil, be(5), u.NFTs[1], be(4), be(6), u.Fung[2], nil, be(7))...),
+		tx(u.U[0], u.U[0], "MultiESDTNFTTransfer", tkMulti(u.U[1],
+			u.Fung[0], nil, be(1), u.NFTs[1], be(5), be(1), u.Fung[1], nil, be(2), u.NFTs[1], be(1), be(1), u.Fung[2], nil, be(3), u.NFTs[1], be(2), be(1),
+			u.Fung[0], nil, be(4), u.NFTs[1], be(5), be(2), u.Fung[1], nil, be(5), u.NFTs[1], be(4), be(6), u.Fung[2], nil, be(7), []byte("fn"), []byte("arg"))...),
+		tx(u.U[0], u.U[0], "SaveKeyValue", []byte("k1"), long('v', 300), []byte("key2"), nil, []byte("k3"), long('w', 5), []byte("k1"), long('x', 2), []byte("kk"), long('y', 129)),
+	)
 	// one cell listed twice: each quantity within the holding, the sum above it
 	l = append(l,
 		tx(u.U[0], u.U[0], "MultiESDTNFTTransfer", tkMulti(u.U[1], u.Fung[0], nil, be(600), u.Fung[0], nil, be(600))...),
